@@ -1,6 +1,8 @@
 package gtxbuf_test
 
 import (
+	"context"
+	"errors"
 	"fmt"
 	"runtime"
 	"sort"
@@ -38,6 +40,9 @@ type c19Op struct {
 	// Buffered: 0 = nil dst, 1 = empty dst with spare capacity, 2 = dst with a
 	// two element prefix and no spare capacity, 3 = prefix and spare capacity.
 	Dst int `json:"dst,omitempty"`
+	// AddTx, Rebase: CA > 0 = the caller gives up while the buffer works on the call: its own context
+	// is cancelled when the addTxFunc runs for the CA-th time within this call (never, if it runs less often).
+	CA int `json:"ca,omitempty"`
 }
 
 type c19SeqCase struct {
@@ -313,9 +318,28 @@ func c19RunSeq(t vk.TB, st *vk.Stats, wal *c19WAL, c c19SeqCase) {
 			if s.dupLive {
 				fid = "C19-F1"
 			}
+			// the caller of this call; an impatient one has a context of its own that is cancelled from
+			// inside the callback. The buffer has taken the request by then and serves it on its own
+			// life-cycle context, so the outcome for the buffer is the same; only what the caller gets
+			// back may be the cancellation instead of the result (both are ready: either may win).
+			cctx, gaveUp := ctx, func() bool { return false }
+			if s.op.CA > 0 && (s.op.K == 0 || s.op.K == 2) {
+				cc, cancel := context.WithCancel(ctx)
+				cf := context.CancelFunc(cancel)
+				w.calls.Store(0)
+				w.cancelCaller.Store(&cf)
+				w.cancelAt.Store(int64(s.op.CA))
+				cctx, gaveUp = cc, func() bool { return cc.Err() != nil }
+				defer cancel()
+			}
 			switch s.op.K {
 			case 0:
-				kind, state, text := c19Classify(buf.AddTx(ctx, s.tx))
+				aerr := buf.AddTx(cctx, s.tx)
+				w.cancelAt.Store(0)
+				if gaveUp() && errors.Is(aerr, context.Canceled) {
+					break // the caller saw its own cancellation; the buffer's state is judged by the next reads
+				}
+				kind, state, text := c19Classify(aerr)
 				if kind != s.wantKind {
 					st.Fail(t, c, fid, "addtx-result", "step %d: AddTx(%v) with pending %v on base %d: got %s, want %s %s", i, s.tx, model, base, c19KindName(kind), c19KindName(s.wantKind), text)
 				}
@@ -326,7 +350,13 @@ func c19RunSeq(t vk.TB, st *vk.Stats, wal *c19WAL, c c19SeqCase) {
 				checkBuffered(i, s.op.Dst, fid)
 			case 2:
 				applied := c19Clone(s.applied)
-				inv, err := buf.Rebase(ctx, &c19State{V: s.base}, applied)
+				inv, err := buf.Rebase(cctx, &c19State{V: s.base}, applied)
+				w.cancelAt.Store(0)
+				if gaveUp() && errors.Is(err, context.Canceled) {
+					c19Scribble(applied)
+					base = s.base
+					break
+				}
 				if err != nil {
 					st.Fail(t, c, fid, "rebase-error", "step %d: Rebase(base=%d, applied=%v) with pending %v: unexpected error %v", i, s.base, s.applied, model, err)
 				}
@@ -425,6 +455,9 @@ func c19GenSeqCase(t *rapid.T) c19SeqCase {
 			case r <= 16:
 				op.Re, op.Ix = 3, rapid.IntRange(0, 4).Draw(t, "ix")
 			}
+			if rapid.IntRange(0, 9).Draw(t, "impatient") == 0 {
+				op.CA = 1
+			}
 			return op
 		case k <= 7:
 			return c19Op{K: 1, Dst: rapid.IntRange(0, 3).Draw(t, "dst")}
@@ -435,6 +468,9 @@ func c19GenSeqCase(t *rapid.T) c19SeqCase {
 				op.Ix = rapid.IntRange(0, 15).Draw(t, "ix")
 			}
 			op.Rot = rapid.IntRange(0, 31).Draw(t, "rot")
+			if rapid.IntRange(0, 4).Draw(t, "impatient") == 0 {
+				op.CA = rapid.IntRange(1, 4).Draw(t, "cancel-at-call")
+			}
 			return op
 		}
 	})
@@ -442,7 +478,7 @@ func c19GenSeqCase(t *rapid.T) c19SeqCase {
 	return c19SeqCase{Sem: sem, Ops: rapid.SliceOfN(opGen, minLen, 40).Draw(t, "ops")}
 }
 
-const c19SeqRule = "case = generated transition table (1-6 states x 1-5 tx types, 14-75% invalid cells, or a nonce chain) + 1-40 ops AddTx/Buffered/Rebase resolved against the reference model; " +
+const c19SeqRule = "case = generated transition table (1-6 states x 1-5 tx types, 14-75% invalid cells, or a nonce chain) + 1-40 ops AddTx/Buffered/Rebase resolved against the reference model, some of them made by a caller that gives up (cancels its own context) while the buffer is inside the callback; " +
 	"non-trivial = some Rebase invalidates a pending tx while keeping a later one, or some AddTx is refused although it applies to the base (refused because of the pending prefix); distinct = distinct (table, op list)"
 
 func TestVerifC19Sequential(t *testing.T) {
